@@ -657,4 +657,7 @@ v("H-P-flush-forget-helper", [(P, """        for task_id in finished:
 """), (P, "    async def gather_and_close(\n", "    def _forget(self, finished) -> None:\n        for task_id in finished:\n            self._tasks_ended.pop(task_id, None)\n            self._tasks_cancelled.pop(task_id, None)\n\n    async def gather_and_close(\n")],
   {"C13": "ok", "C02": "ok", "C12": "ok"})
 
+v("42f-flush-first-gather-not-awaited", [(P, "        with suppress(CancelledError):\n            await gather(\n                *self._meta_tasks_cancelled,", "        with suppress(CancelledError):\n            gather(\n                *self._meta_tasks_cancelled,")],
+  {"C08": "R08.2"})
+
 VARIANTS = V
